@@ -9,7 +9,7 @@ Shape
   undone: bodies are nested lists again).  The harness converts the real flattened rows of
   `frontend/gir.bundle*` to this form (one constructor per GIR operation, attributes by name).
 * Operands of GIR rows are text tokens.  `Opd.ofToken` fixes their reading: `"…"`/`'…'` string
-  constant, decimal integer constant, `true`/`false`/`null` constants, empty token = absent
+  constant (escape sequences `\n \t \" \' \\` interpreted), decimal integer constant, `true`/`false`/`null` constants, empty token = absent
   (reads as `None`), everything else is a variable name.
 * `State` = object heap (`heap`, data objects by address) + frame store (`frames`, variable frames by
   index; kept apart from the heap so that operators depend on the heap only and assignments on the
@@ -92,6 +92,17 @@ inductive Opd where
   | var (x : String)
   deriving Repr, BEq, DecidableEq, Inhabited
 
+/-- escape sequences of a string-constant token (the frontends keep the SOURCE TEXT of a literal):
+`\n`, `\t`, `\"`, `\'`, `\\` denote the character; any other backslash stays as it is. -/
+def unescape : List Char → List Char
+  | '\\' :: c :: rest =>
+    if c == 'n' then '\n' :: unescape rest
+    else if c == 't' then '\t' :: unescape rest
+    else if c == '"' || c == '\'' || c == '\\' then c :: unescape rest
+    else '\\' :: c :: unescape rest
+  | c :: rest => c :: unescape rest
+  | [] => []
+
 /-- Reading of an operand token of a GIR row. -/
 def Opd.ofToken (t : String) : Opd :=
   if t == "true" then .lit (.bool true)
@@ -100,7 +111,7 @@ def Opd.ofToken (t : String) : Opd :=
   else match t.toList with
     | [] => .lit .none
     | c :: cs =>
-      if c == '"' || c == '\'' then .lit (.str (String.ofList cs.dropLast))
+      if c == '"' || c == '\'' then .lit (.str (String.ofList (unescape cs.dropLast)))
       else match t.toInt? with
         | some n => .lit (.int n)
         | none => .var t
